@@ -76,6 +76,8 @@ def _case(draw, tier):
         "sep": draw(st.sampled_from([3.0, 4.0])),
         "train_fdr": draw(st.sampled_from([None, None, 0.31, 0.2113, 0.1279])),  # None: same as the evaluation FDR
         "twin": draw(st.booleans()),
+        # the user names the feature that gives the initial direction (Model(direction=...)) instead of leaving the choice to mokapot
+        "explicit_direction": draw(st.sampled_from([False, False, False, True])),
         "raw_labels": draw(st.booleans()),
         # one noise feature becomes a two-valued indicator that marks nearly all correct targets: the best single feature
         "flag": draw(st.sampled_from([False, False, True])),
@@ -113,7 +115,8 @@ def _make_model(case):
         "memobad": recorder.Memo(log="c07", feat=1),
         "memoweak": recorder.MemoWeak(log="c07", w=case["sign"]),
     }[k]
-    return mokapot.Model(est, scaler=recorder.RecScaler(identity=True), train_fdr=thr, max_iter=2, override=case["override"])
+    kw = {"direction": "f0"} if (case.get("explicit_direction") and not case.get("twin") and not case.get("flag")) else {}
+    return mokapot.Model(est, scaler=recorder.RecScaler(identity=True), train_fdr=thr, max_iter=2, override=case["override"], **kw)
 
 
 def _check_cli_direction(case):
@@ -252,6 +255,13 @@ def check(case):
                     if n_acc > F:
                         F, F_args = n_acc, (j, f, d)
             per_fold_best.append(best_j)
+        if getattr(model, "direction", None) is not None:
+            classes_extra = ["direction-named-by-the-user"]
+            if F_args is not None and F_args[1] != model.direction:
+                # another feature happens to beat the named one: "the best single feature" is not the one training started from
+                return {"nontrivial": False, "classes": ["direction-named-by-the-user", "named-feature-is-not-the-best"]}
+        else:
+            classes_extra = []
         require(len(scores) == len(dfs) and len(descs) == len(dfs), "shape", "scores/descs per collection")
         S = [np.asarray(s, dtype=float).ravel() for s in scores]
         for s, df in zip(S, dfs):
@@ -276,7 +286,7 @@ def check(case):
         if ambiguous:
             raise Rejected("exact q-value within float32 rounding of the threshold")
         trained = all(m.is_trained for m in models)
-        classes = [case["kind"], case["label_enc"], case["fmt"]]
+        classes = [case["kind"], case["label_enc"], case["fmt"]] + classes_extra
         if as_feature is None:
             if not case["override"]:
                 require(P >= F, "silently-worse",
